@@ -679,9 +679,7 @@ class Executor:
         """Run a *pure* leaf function on every path in a nested exploration and merge the returned
         scalars into one ite-term, so that the caller does not fork.  Obligations raised inside are
         discharged per leaf under the leaf's path condition.  Stores to pre-existing objects are refused."""
-        if any(is_sym(a) is False and isinstance(a, Ptr) for a in args):
-            raise Unsupported("merged call with pointer argument: %s" % name)
-        leaves = []
+        leaves = []      # pointer arguments are allowed: the callee may read through them; stores to pre-existing objects are refused
         sub = st.clone()
         sub.frames = []
         sub.oblig = []
